@@ -69,6 +69,17 @@ func C06(tier string) int {
 	}
 	runE1(rep, k2, cfg2)
 
+	// constraints and link collections owned by the child stores themselves, with the extended child store
+	// (which claims every parent entity) registered before and after the plain one
+	for _, extFirst := range []bool{true, false} {
+		kc := newKitchen(fmt.Sprintf("child-store indexes and link collection, extended registered first=%v", extFirst), kFeat{childIdx: true, places: true, childLinks: true, extFirst: extFirst})
+		cfgc := explore.Config{Programs: explore.SingleOps(len(kc.Ops())), PerTransition: c06Oracle(rep, kc), MaxDepth: 3}
+		if tier != "quick" {
+			cfgc.MaxDepth = 5
+		}
+		runE1(rep, kc, cfgc)
+	}
+
 	// link collections to closure (two entities per side): <any link operation>; <delete> in one
 	// transaction - the deleted entity's link buckets were then written earlier in the same transaction
 	for _, ls := range []*linkScenario{
